@@ -225,20 +225,29 @@ theorem coprime_key_irrelevant (values : List Nat) (w : Nat) (other : Option Nat
 
 /-! ## CheckGCD -/
 
-/-- ★ `CheckGCD` on positive moduli: key `n` gets `checkGCDKey n g` with
+/-- ★ `CheckGCD` on positive moduli: key `n` gets `checkGCDKeyR ns n g` with
 `g = gcd(n, ∏ other distinct moduli)`; `any_weak` is the disjunction of the flags. -/
 theorem checkGCD_spec (ns : List Nat) (hpos : ∀ n ∈ ns, 0 < n) :
     checkGCD ns = .ok
-      ((ns.map fun n => checkGCDKey n (entry ns.toFinset 1 n)).any (·.1),
-        ns.map fun n => checkGCDKey n (entry ns.toFinset 1 n)) :=
+      ((ns.map fun n => checkGCDKeyR ns n (entry ns.toFinset 1 n)).any (·.1),
+        ns.map fun n => checkGCDKeyR ns n (entry ns.toFinset 1 n)) :=
   checkGCD_eq ns hpos
 
-/-- the per-key record: flagged iff `g ≠ 1`; then the recorded factors are `[g, n / g]`. -/
-theorem checkGCDKey_spec (n g : Nat) :
-    ((checkGCDKey n g).1 = true ↔ g ≠ 1) ∧
-      (g ≠ 1 → (checkGCDKey n g).2 = [g, n / g]) ∧ (g = 1 → (checkGCDKey n g).2 = []) := by
-  unfold checkGCDKey
-  by_cases h : g = 1 <;> simp [h]
+/-- the per-key record: flagged iff `g ≠ 1`; then the recorded factors START with `[g, n / g]`
+— the recorded factor is that greatest common divisor — followed, only when `g = n`, by a
+proper split found from a single other modulus (`fix:` D2). -/
+theorem checkGCDKey_spec (ns : List Nat) (n g : Nat) :
+    ((checkGCDKeyR ns n g).1 = true ↔ g ≠ 1) ∧
+      (g ≠ 1 → (checkGCDKeyR ns n g).2 = [g, n / g] ++ extraSplit ns n g) ∧
+      (g ≠ 1 → g ≠ n → (checkGCDKeyR ns n g).2 = [g, n / g]) ∧
+      (g = 1 → (checkGCDKeyR ns n g).2 = []) := by
+  unfold checkGCDKeyR
+  by_cases h : g = 1
+  · simp [h]
+  · simp only [h, if_false, ne_eq, not_false_eq_true, forall_const, true_and, iff_true,
+      false_implies, and_true]
+    intro hne
+    simp [extraSplit, hne]
 
 /-- ★ the recorded factors of a flagged key: `g ∣ n`, `g * (n / g) = n`, and the record
 degenerates to `{n, 1}` exactly when `n` divides the product of the other distinct moduli
@@ -248,6 +257,24 @@ theorem checkGCD_factors (s : Finset Nat) (n : Nat) :
       (entry s 1 n = n ↔ n ∣ ∏ x ∈ s.erase n, x) := by
   refine ⟨entry_dvd s 1 n, Nat.mul_div_cancel' (entry_dvd s 1 n), ?_⟩
   rw [entry_eq_self_iff, Nat.mul_one]
+
+/-- ★ (code after `fix:` D2) every recorded value of a flagged key divides the modulus, and
+at least one is a PROPER divisor unless the modulus divides another distinct modulus of the
+batch — the last clause of property C01 for `CheckGCD`. -/
+theorem checkGCD_recorded_proper (ns : List Nat) (n : Nat) (hn : 1 < n)
+    (hflag : entry ns.toFinset 1 n ≠ 1) :
+    (∀ f ∈ (checkGCDKeyR ns n (entry ns.toFinset 1 n)).2, f ∣ n) ∧
+    ((∃ f ∈ (checkGCDKeyR ns n (entry ns.toFinset 1 n)).2, 1 < f ∧ f < n) ∨
+      ∃ m ∈ ns, m ≠ n ∧ n ∣ m) := by
+  refine ⟨?_, checkGCDKeyR_proper ns n hn hflag⟩
+  intro f hf
+  rw [(checkGCDKey_spec ns n _).2.1 hflag] at hf
+  rcases List.mem_append.mp hf with h | h
+  · simp only [List.mem_cons, List.not_mem_nil, or_false] at h
+    rcases h with rfl | rfl
+    · exact entry_dvd _ _ _
+    · exact Nat.div_dvd_of_dvd (entry_dvd _ _ _)
+  · exact extraSplit_dvd ns n _ f h
 
 /-- `any_weak` is true iff some key is flagged iff some modulus shares a divisor with another
 distinct modulus. -/
@@ -260,13 +287,13 @@ theorem checkGCD_any_weak (ns : List Nat) (hpos : ∀ n ∈ ns, 0 < n) (w : Bool
   constructor
   · rintro ⟨k, hk, hk1⟩
     obtain ⟨n, hn, rfl⟩ := List.mem_map.1 hk
-    rw [(checkGCDKey_spec n _).1, flagged_iff_shares] at hk1
+    rw [(checkGCDKey_spec ns n _).1, flagged_iff_shares] at hk1
     rcases hk1 with h1 | ⟨m, hm, hne, hg⟩
     · simp at h1
     · exact ⟨n, hn, m, List.mem_toFinset.1 hm, hne, hg⟩
   · rintro ⟨n, hn, m, hm, hne, hg⟩
     refine ⟨_, List.mem_map.2 ⟨n, hn, rfl⟩, ?_⟩
-    rw [(checkGCDKey_spec n _).1, flagged_iff_shares]
+    rw [(checkGCDKey_spec ns n _).1, flagged_iff_shares]
     exact Or.inr ⟨m, List.mem_toFinset.2 hm, hne, hg⟩
 
 /-! ## CheckGCDN1 -/
@@ -325,7 +352,7 @@ example : batchGCD [0, 5] none = .error .zeroDivision := by decide +kernel
 example : checkGCD [6, 15, 6, 221] = .ok (true, [(true, [3, 2]), (true, [3, 5]), (true, [3, 2]),
     (false, [])]) := by decide +kernel
 -- D2 shape: 15 = 3·5 divides 6·35, the record is {15, 1}
-example : checkGCD [6, 15, 35] = .ok (true, [(true, [3, 2]), (true, [15, 1]), (true, [5, 7])]) := by
+example : checkGCD [6, 15, 35] = .ok (true, [(true, [3, 2]), (true, [15, 1, 3, 5]), (true, [5, 7])]) := by
   decide +kernel
 example : checkGCDN1 6 [13, 19, 11] = .ok (true, [(true, [12]), (true, [6]), (false, [])]) := by
   decide +kernel
